@@ -1348,6 +1348,8 @@ def sign_extension_rule(ctx, R, L, sem):
             R.ok(inst, sample='%s evaluated on %d accumulators x 2 values of edx: the registers are those of the processor' % (name, len(vals)), nontrivial=True)
 
 MUTANTS = [
+    ('shld-same-register-as-rotate', 'miasmx/arch/ia32_sem.py', 'def shld(info, a, b, c):\n', 'def shld(info, a, b, c):\n    if a == b:\n        return l_rol(info, a, c)\n', 'C04.D12'),
+
     ('aff-slice-compose-spliced-without-offset', 'miasmx/expression/expression.py', "            all_a = sorted([(src, dst.start, dst.stop)] + rest, key=lambda x:x[1])",
      "            new = list(src.args) if isinstance(src, ExprCompose) and src.get_size() == dst.get_size() else [(src, dst.start, dst.stop)]\n            all_a = sorted(new + rest, key=lambda x:x[1])", 'C04.D19'),
     ('bt-unsigned-offset', 'miasmx/arch/ia32_sem.py', "                          ExprOp('a>>', b, ExprInt_from(a, 3)),", "                          ExprOp('>>', b, ExprInt_from(a, 3)),", 'C04.D13'),
